@@ -38,6 +38,7 @@ def check(run, tier):
         "distribute on both devices judged by Trace_Twin (C08.badwell: raises, no pipetting record, volumes unchanged)"
     )
     run.mc("MC_Geom", "MC_Geom" if tier == "quick" else "MC_Geom_thorough")
+    run.tlaps("PosInjective")  # unbounded: injectivity and range of the numbering for every number of rows / columns
     run_calls(run, geometries(tier, rng("C08")), batch=60 if tier == "quick" else 40)
     # well ids that do not exist: every record emitting operation must raise without emitting a record
     run_programs(run, targeted.badwell_programs("evo") + targeted.badwell_programs("fluent"))
